@@ -36,4 +36,4 @@ cat > $DEST/meta.json <<META
  "ran": "fresh worktree of /repo HEAD + git apply patch.diff; pytest; demo.py; then 'VERIF_REPO=<worktree> ./check <id>' from a private copy of /verif (equivalent to git -C /repo apply + ./check + git checkout, without disturbing concurrent builds)",
  "checks": [${RES%,}]}
 META
-cd /; git -C /repo worktree remove --force "$WT"; rm -rf "$VS"
+cd /; [ -n "$KEEP" ] && exit 0; git -C /repo worktree remove --force "$WT"; rm -rf "$VS"
